@@ -104,6 +104,9 @@ Definition fl_le0 (b : Z) : bool := (negb (fl_nan b) && (fl_sign b || Z.eqb (fl_
 Definition fl_gt1 (b : Z) : bool := (negb (fl_sign b) && negb (fl_nan b) && Z.ltb 4607182418800017408 (fl_mag b))%bool. (* 0x3FF0000000000000 *)
 (* x < 0 || 1 < x *)
 Definition fl_out01 (b : Z) : bool := (fl_lt0 b || fl_gt1 b)%bool.
+(* x >= 0 && x < 18446744073709551616.0 (0x43F0000000000000 = 2^64); -0.0 >= 0 holds *)
+Definition fl_in_u64 (b : Z) : bool :=
+  (negb (fl_nan b) && (negb (fl_sign b) || Z.eqb (fl_mag b) 0) && Z.ltb (fl_mag b) 4895412794951729152)%bool.
 
 (* ---------- the parsing oracle: results of the Go library parsers on one request value ---------- *)
 
@@ -117,7 +120,7 @@ Record st_po := {
   po_bool : option bool;  (* strconv.ParseBool *)
   po_hex : bool;          (* hex.DecodeString succeeds *)
   po_u64 : option Z;      (* strconv.ParseUint(s,10,64) *)
-  po_zcn : st_zcn;        (* currency.ParseZCN of the parsed float: value, error, or panic (NaN, +-Inf) *)
+  po_zcn : st_zcn;        (* currency.ParseZCN of the parsed float: value, error, or panic (NaN, +-Inf: refused beforehand by config.ParseZCN) *)
   po_cast : Z;            (* uint64(f) of the parsed float as computed on this platform *)
   po_mult : option Z      (* currency.MultFloat64(1e10, f) of the parsed float *)
 }.
@@ -158,16 +161,19 @@ Definition st_parse (globals : bool) (t : st_ty) (raw : string) (po : st_po) : s
     | StBool => st_of_opt SvB (po_bool po)
     | StKey => if po_hex po then ROk (SvS raw) else RReject
     | StString => ROk (SvS raw)
-    | StCoin => match po_flt po with
+    | StCoin => match po_flt po with            (* config.ParseZCN: NaN and the infinities are refused first *)
                 | None => RReject
                 | Some _ => match po_zcn po with
                             | ZcnOk z => ROk (SvZ z)
                             | ZcnErr => RReject
-                            | ZcnPanic => RPanic
+                            | ZcnPanic => RReject
                             end
                 end
     | StCoinU64 => st_of_opt SvZ (po_u64 po)
-    | StCoinCast => match po_flt po with Some _ => ROk (SvZ (po_cast po)) | None => RReject end
+    | StCoinCast => match po_flt po with
+                    | Some b => if fl_in_u64 b then ROk (SvZ (po_cast po)) else RReject
+                    | None => RReject
+                    end
     | StCoinMult => match po_flt po with Some _ => st_of_opt SvZ (po_mult po) | None => RReject end
     | StInt32 | StStrings | StCost => RReject
     end.
@@ -205,33 +211,33 @@ Definition st_evalue (sp : st_spec) (e : st_entry) : string :=
 Definition st_eval (sp : st_spec) (e : st_entry) : st_res (string * st_val) :=
   let k := st_ekey sp e in
   let cost_any := match sp_cost sp with CostAny => st_is_cost k | _ => false end in
-  if cost_any then
-    match po_int (e_po e) with Some z => ROk (k, SvZ z) | None => RReject end
-  else
-    match st_lookup (sp_table sp) k with
-    | Some r =>
-        if st_row_flag r then
-          match st_parse (sp_globals sp) (st_row_ty r) (st_evalue sp e) (e_po e) with
-          | ROk v => ROk (k, v)
-          | RReject => RReject
-          | RPanic => RPanic
-          end
-        else RReject
-    | None =>
-        match sp_cost sp with
-        | CostListed fns =>
-            if prefix "cost" k then
-              let ck := st_lower (st_trim_prefix "cost." k) in
-              if existsb (fun f => String.eqb ck (st_lower f)) fns then
-                match po_int (e_po e) with
-                | Some z => if Z.leb 0 z then ROk (("cost." ++ ck)%string, SvZ z) else RReject
-                | None => RReject
-                end
-              else RReject
-            else RReject
-        | _ => RReject
+  match st_lookup (sp_table sp) k with
+  | Some r =>
+      if cost_any then
+        (* a listed key with the "cost." prefix: strconv.Atoi, stored in the cost map *)
+        match po_int (e_po e) with Some z => ROk (k, SvZ z) | None => RReject end
+      else if st_row_flag r then
+        match st_parse (sp_globals sp) (st_row_ty r) (st_evalue sp e) (e_po e) with
+        | ROk v => ROk (k, v)
+        | RReject => RReject
+        | RPanic => RPanic
         end
-    end.
+      else RReject
+  | None =>
+      match sp_cost sp with
+      | CostListed fns =>
+          if prefix "cost" k then
+            let ck := st_lower (st_trim_prefix "cost." k) in
+            if existsb (fun f => String.eqb ck (st_lower f)) fns then
+              match po_int (e_po e) with
+              | Some z => if Z.leb 0 z then ROk (("cost." ++ ck)%string, SvZ z) else RReject
+              | None => RReject
+              end
+            else RReject
+          else RReject
+      | _ => RReject      (* also: minersc/storagesc keys with the "cost." prefix that the table does not list *)
+      end
+  end.
 
 Definition st_apply (sp : st_spec) (s : st_store) (e : st_entry) : st_res st_store :=
   match st_eval sp e with
@@ -240,24 +246,32 @@ Definition st_apply (sp : st_spec) (s : st_store) (e : st_entry) : st_res st_sto
   | RPanic => RPanic
   end.
 
-(* faucetsc and vestingsc: the default clause of the key switch is `return setCostValue(key, value)`;
-   it ends the loop also when the cost was set, so the entries after it (in map order) are never looked at *)
-Definition st_terminal (sp : st_spec) (e : st_entry) : bool :=
-  match sp_cost sp with
-  | CostListed _ => match st_lookup (sp_table sp) (st_ekey sp e) with None => true | Some _ => false end
-  | _ => false
+(* the loops `for _, key := range config.SortedKeys(fields)`: the request is visited in the order of its raw
+   keys (sort.Strings = bytewise = String.leb), whatever order the Go map would give *)
+Fixpoint st_insert (e : st_entry) (l : list st_entry) : list st_entry :=
+  match l with
+  | [] => [e]
+  | x :: tl => if String.leb (e_key e) (e_key x) then e :: l else x :: st_insert e tl
   end.
+Fixpoint st_sort (l : list st_entry) : list st_entry :=
+  match l with [] => [] | e :: tl => st_insert e (st_sort tl) end.
 
-(* the `for key, value := range fields` loops: the list order is Go's map iteration order *)
-Fixpoint st_update (sp : st_spec) (s : st_store) (es : list st_entry) : st_res st_store :=
+(* one pass over the entries in the given order. storagesc (sp_trim) refuses a second entry whose trimmed key
+   was already seen ("key ... given twice"); [seen] = the trimmed keys so far *)
+Fixpoint st_update_from (sp : st_spec) (seen : list string) (s : st_store) (es : list st_entry) : st_res st_store :=
   match es with
   | [] => ROk s
-  | e :: tl => match st_apply sp s e with
-               | ROk s' => if st_terminal sp e then ROk s' else st_update sp s' tl
-               | RReject => RReject
-               | RPanic => RPanic
-               end
+  | e :: tl =>
+      if (sp_trim sp && existsb (String.eqb (st_ekey sp e)) seen)%bool then RReject
+      else match st_apply sp s e with
+           | ROk s' => st_update_from sp (st_ekey sp e :: seen) s' tl
+           | RReject => RReject
+           | RPanic => RPanic
+           end
   end.
+
+Definition st_update (sp : st_spec) (s : st_store) (es : list st_entry) : st_res st_store :=
+  st_update_from sp [] s (st_sort es).
 
 (* ---------- validation predicates (hand-transcribed) ---------- *)
 
@@ -336,7 +350,7 @@ Definition st_spec_of (k : st_contract) : st_spec :=
   | KStorage => {| sp_table := gen_storagesc_table; sp_globals := false; sp_trim := true; sp_cost := CostAny; sp_validate := Some st_valid_storage |}
   | KFaucet => {| sp_table := gen_faucetsc_table; sp_globals := false; sp_trim := false; sp_cost := CostListed gen_faucetsc_costs; sp_validate := Some st_valid_faucet |}
   | KVesting => {| sp_table := gen_vestingsc_table; sp_globals := false; sp_trim := false; sp_cost := CostListed gen_vestingsc_costs;
-                   sp_validate := None (* vestingsc.updateConfig saves without calling config.validate *) |}
+                   sp_validate := Some st_valid_vesting |}
   | KZcn => {| sp_table := gen_zcnsc_table; sp_globals := false; sp_trim := false; sp_cost := CostNever; sp_validate := Some st_valid_zcn |}
   end.
 
@@ -394,7 +408,11 @@ Definition st_step (k : st_contract) (env : st_env) (s : st_state) (o : st_op) :
             | _ =>
                 let pend := st_merge (g_pend s) (t_entries t) in
                 match st_update sp (g_conf s) pend with
-                | ROk c' => ({| g_conf := if env_demeter env then c' else g_conf s; g_pend := pend |}, OutOk)
+                | ROk c' =>
+                    if env_demeter env then
+                      (* the updated config is saved right away: validated before anything is written *)
+                      if st_valid_storage c' then ({| g_conf := c'; g_pend := pend |}, OutOk) else (s, OutReject)
+                    else ({| g_conf := g_conf s; g_pend := pend |}, OutOk)
                 | RReject => (s, OutReject)
                 | RPanic => (s, OutPanic)
                 end
